@@ -3,17 +3,19 @@
 # run the given checks (default: Cxx) against each through an overlay, record results in meta.json.
 p=$1; shift; checks=${@:-$p}
 cd /verif
+R=${ROUND:-}
 for x in A B; do
-  src=/tmp/mut-$p/out/$x; [ -f $src/patch.diff ] || continue
-  d=seeded/$p-$x; mkdir -p $d; cp $src/* $d/ 2>/dev/null
+  src=/tmp/mut$R-$p/out/$x; [ -f $src/patch.diff ] || continue
+  y=$x; if [ "$R" = 2 ]; then if [ $x = A ]; then y=C; else y=D; fi; fi
+  d=seeded/$p-$y; mkdir -p $d; cp $src/* $d/ 2>/dev/null
   conf=$(tools/confirm_seeded.sh $d 2>&1 | tail -12)
-  python3 tools/patch2overlay.py $d/patch.diff work/ov-$p-$x >/dev/null || { echo "$p-$x overlay failed"; continue; }
+  python3 tools/patch2overlay.py $d/patch.diff work/ov-$p-$y >/dev/null || { echo "$p-$x overlay failed"; continue; }
   declare -A R=()
   for c in $checks; do
-    out=$(./check $c --tier quick --overlay work/ov-$p-$x/overlay.json 2>&1 | tail -4)
+    out=$(./check $c --tier quick --overlay work/ov-$p-$y/overlay.json 2>&1 | tail -4)
     if echo "$out" | grep -q "^VIOLATION"; then R[$c]="VIOLATION: $(echo "$out" | grep -E '^FAILING-INPUT|^BROKEN' | head -1 | cut -c1-300)"; else R[$c]="not caught: $(echo "$out" | tail -1 | cut -c1-200)"; fi
     cp replays/$c-quick-seed1.json $d/replay-$c.json 2>/dev/null
-    echo "== $p-$x check $c: ${R[$c]}" | cut -c1-400
+    echo "== $p-$y check $c: ${R[$c]}" | cut -c1-400
   done
   CONF="$conf" python3 - "$d" "$p" <<'PY'
 import json, os, sys
@@ -32,6 +34,6 @@ m = json.load(open(d + "/meta.json")); m["checks_run"]["results"][c] = os.enviro
 PY
   done
   echo "$conf" | grep RESULT
-  rm -rf work/ov-$p-$x
+  rm -rf work/ov-$p-$y
 done
-git -C /repo worktree remove --force /tmp/mut-$p/wt 2>/dev/null; rm -rf /tmp/mut-$p
+git -C /repo worktree remove --force /tmp/mut$R-$p/wt 2>/dev/null; rm -rf /tmp/mut$R-$p
